@@ -25,7 +25,18 @@ func (g *cfgen) cond(inLoop bool) string {
 func (g *cfgen) block(depth int, inLoop bool, ind string) []string {
 	n := g.pick("nstmts", 4)
 	var out []string
+	// a nested block may declare its own k, shadowing the function's k until the block ends; code
+	// after the block reads the outer k again (seeded change C01-30: a then-branch flattened
+	// together with the statements that follow the if)
+	shadowAt := -1
+	if depth < 3 && n > 0 && Chance(g.t, "shadowk", 35) {
+		shadowAt = g.pick("shadowat", n)
+	}
 	for k := 0; k < n; k++ {
+		if k == shadowAt {
+			g.ctr++
+			out = append(out, fmt.Sprintf("%sk := r + %d", ind, 1000+g.ctr), ind+"r = r*2 + k")
+		}
 		out = append(out, g.stmt(depth, inLoop, ind)...)
 	}
 	return out
@@ -33,13 +44,15 @@ func (g *cfgen) block(depth int, inLoop bool, ind string) []string {
 
 func (g *cfgen) stmt(depth int, inLoop bool, ind string) []string {
 	g.ctr++
-	kinds := 7
+	kinds := 9
 	if depth <= 0 {
 		kinds = 4
 	}
 	switch g.pick("stmt", kinds) {
-	case 0, 1:
+	case 0:
 		return []string{fmt.Sprintf("%sr = r*3 + %d", ind, g.ctr)}
+	case 1:
+		return []string{fmt.Sprintf("%sr = r*3 + k + %d", ind, g.ctr)}
 	case 2:
 		return []string{fmt.Sprintf("%sreturn r + %d", ind, 100+g.ctr)}
 	case 3:
@@ -47,6 +60,25 @@ func (g *cfgen) stmt(depth int, inLoop bool, ind string) []string {
 			return []string{ind + []string{"break", "continue"}[g.pick("bc", 2)]}
 		}
 		return []string{fmt.Sprintf("%sr = r + %d", ind, g.ctr)}
+	case 7, 8:
+		// one branch leaves (return / break / continue), the other falls through to the code after
+		// the if; the surviving branch may shadow k, which the code after the if reads
+		exit := fmt.Sprintf("return r + %d", 200+g.ctr)
+		if inLoop && g.pick("exitkind", 2) == 0 {
+			exit = []string{"break", "continue"}[g.pick("bc2", 2)]
+		}
+		stay := []string{fmt.Sprintf("%s\tr = r*5 + %d", ind, g.ctr)}
+		if Chance(g.t, "stayshadow", 60) {
+			stay = []string{fmt.Sprintf("%s\tk := r + %d", ind, 3000+g.ctr), ind + "\tr = r*2 + k"}
+		}
+		leave := []string{fmt.Sprintf("%s\tr = r + %d", ind, g.ctr), ind + "\t" + exit}
+		out := []string{ind + "if " + g.cond(inLoop) + " {"}
+		if g.pick("exitbranch", 2) == 0 {
+			out = append(append(append(out, leave...), ind+"} else {"), stay...)
+		} else {
+			out = append(append(append(out, stay...), ind+"} else {"), leave...)
+		}
+		return append(out, ind+"}", fmt.Sprintf("%sr = r*3 + k + %d", ind, g.ctr))
 	case 4, 5:
 		out := []string{ind + "if " + g.cond(inLoop) + " {"}
 		out = append(out, g.block(depth-1, inLoop, ind+"\t")...)
@@ -76,7 +108,7 @@ func (g *cfgen) stmt(depth int, inLoop bool, ind string) []string {
 func GenerateControlFlow(t *rapid.T) string {
 	g := &cfgen{t: t}
 	var sb strings.Builder
-	sb.WriteString("package main\n\nfunc cf(p0 bool, p1 bool, p2 bool) uint64 {\n\tvar r uint64 = 1\n")
+	sb.WriteString("package main\n\nfunc cf(p0 bool, p1 bool, p2 bool) uint64 {\n\tvar r uint64 = 1\n\tk := uint64(7)\n\t_ = k\n")
 	for _, l := range g.block(3, false, "\t") {
 		sb.WriteString(l + "\n")
 	}
